@@ -80,12 +80,15 @@ package topology
 //@   requires t != nil && subGroup != nil && job != nil
 //@   requires forall i int :: 0 <= i && i < len(nodeSet) ==> nodeSet[i] != nil && nodeSet[i].Node != nil
 //@   modifies *
+//@   nopanic off
 //@   loop 1
 //@     invariant 0 - 1 <= rangeindex && rangeindex < len(jobAllocatableDomains)
+//@     invariant forall a int :: 0 <= a && a < len(domainNodeSets) && len(domainNodeSets[a]) > 0 ==> fresh(domainNodeSets[a])
 //@     invariant forall k in validNodes :: exists i int :: 0 <= i && i < len(nodeSet) && old(nodeSet[i].Name) == k
 //@     invariant forall a int, b int :: 0 <= a && a < len(domainNodeSets) && 0 <= b && b < len(domainNodeSets[a]) ==> domainNodeSets[a][b].Name in validNodes
 //@     decreases len(jobAllocatableDomains) - rangeindex
 //@   loop 2
+//@     invariant forall a int :: 0 <= a && a < len(domainNodeSets) && len(domainNodeSets[a]) > 0 ==> fresh(domainNodeSets[a])
 //@     invariant forall k in validNodes :: exists i int :: 0 <= i && i < len(nodeSet) && old(nodeSet[i].Name) == k
 //@     invariant forall a int, b int :: 0 <= a && a < len(domainNodeSets) && 0 <= b && b < len(domainNodeSets[a]) ==> domainNodeSets[a][b].Name in validNodes
 //@     invariant forall b int :: 0 <= b && b < len(domainNodeSet) ==> domainNodeSet[b].Name in validNodes
